@@ -220,6 +220,40 @@ def run(ctx):
     shutil.rmtree(work, ignore_errors=True)
     os.makedirs(work)
     cli_runs = 0
+    # a file included a second time under ANOTHER SPELLING of its path (./, ../, dir/../): textual inclusion of one file
+    # twice is refused - exactly one 'Cyclic dependency' error, on the path token of the second directive, in the file that
+    # holds it - and the file's own diagnostics appear once (round 9: the already-read test ran before the path was made
+    # canonical, so only literally repeated spellings were recognised)
+    for si in range(8 * k):
+        d = os.path.join(work, "sp%d" % si)
+        body = rng.choice([" addi zero, a0, 1\n li t5, 3\n", " li t4, 1\n li t4, 2\n add a0, a0, t4\n", "helper:\n addi a0, a0, 1\n ret\n"])
+        first = rng.choice(["snip/clear.s", "./snip/clear.s", "snip/../snip/clear.s", "lib/../snip/clear.s"])
+        via_lib = rng.random() < 0.5
+        again = rng.choice(["../snip/clear.s", "../snip/./clear.s", "./../snip/clear.s", "../lib/../snip/clear.s"]) if via_lib else \
+            rng.choice([x for x in ["snip/clear.s", "./snip/clear.s", "snip/../snip/clear.s", "lib/../snip/clear.s", "snip//clear.s"] if x != first])
+        sfiles = [("main.s", "main:\n li a0, 1\n.include \"%s\"\n.include \"%s\"\n li a7, 10\n ecall\n" % (first, "lib/sum.s" if via_lib else again)),
+                  ("lib/sum.s", " addi a0, a0, 2\n.include \"%s\"\n" % again if via_lib else " addi a0, a0, 2\n"),
+                  ("snip/clear.s", body)]
+        write_files(d, sfiles)
+        try:
+            pr = subprocess.run([rva, "lint", "--json", "--all-files", os.path.join(d, "main.s")], stdout=subprocess.PIPE, stderr=subprocess.PIPE, timeout=10)
+            cli_runs += 1
+            jd = json.loads(pr.stdout.decode("utf-8", "replace"))["diagnostics"]
+        except subprocess.TimeoutExpired:
+            failing.append(dict(files=sfiles, base="main.s", kind="spellings", why="rva does not return on a tree that includes %r again as %r" % (first, again)))
+            continue
+        except (ValueError, KeyError):
+            continue
+        holder, hline = ("lib/sum.s", 1) if via_lib else ("main.s", 3)
+        htext = dict(sfiles)[holder].split("\n")[hline]
+        cyc = [x for x in jd if x["title"].startswith("Cyclic dependency")]
+        ok_ = (len(cyc) == 1 and cyc[0]["file"] == os.path.realpath(os.path.join(d, holder)) and cyc[0]["range"]["start"]["line"] == hline
+               and cyc[0]["range"]["start"]["column"] == htext.index('"'))
+        dupl = [x["title"] for x in jd if x["title"].startswith("Duplicate label")]
+        if not ok_ or dupl:
+            failing.append(dict(files=sfiles, base="main.s", kind="spellings",
+                                why="%r is included as %r and again as %r (line %d of %s): expected exactly one 'Cyclic dependency' error on that path token; got %s" % (
+                                    "snip/clear.s", first, again, hline + 1, holder, [(x["title"], os.path.relpath(x["file"], d) if x["file"] else None, x["range"]["start"]["line"] + 1) for x in jd][:6])))
     for ci, p in enumerate(progs[:50 * k]):
         files, base, where = split_program(rng, p, nested_dirs=True)
         if len(files) < 2:
